@@ -543,10 +543,33 @@ func rawRead(fd int) {
 //go:norace
 func Yield(site string) { yieldHook(site) }
 
+// Solo mode: outside a simulated run (solo oracle, warm-up) the hooks pass
+// through, but they still count, so that a decode that never returns - a
+// damaged record met by a decoder with an endless loop - ends in a panic the
+// oracle can recover instead of hanging the worker.
+var (
+	soloSteps int
+	soloLimit int
+)
+
+// BeginSolo arms the solo step limit; EndSolo disarms it.
+func BeginSolo(limit int) { soloSteps, soloLimit = 0, limit }
+func EndSolo()            { soloLimit = 0 }
+
 //go:norace
 func yieldHook(site string) {
 	s := active
-	if s == nil || s.freeRun {
+	if s == nil {
+		if soloLimit > 0 {
+			soloSteps++
+			if soloSteps > soloLimit {
+				soloLimit = 0
+				panic(AbortPanic{AbortBudget})
+			}
+		}
+		return
+	}
+	if s.freeRun {
 		return
 	}
 	t := s.cur
